@@ -103,27 +103,46 @@ type formatDef struct {
 	name   string
 	reader func(r io.Reader, visit func(gItem) bool) (int, bool)
 	file   func(path string, visit func(gItem) bool) (int, bool)
+	// file2: the iterator value returned by File is ranged over twice: a first pass that is given up after one item, then the
+	// recorded pass (an iter.Seq is a recipe, not a run)
+	file2 func(path string, visit func(gItem) bool) (int, bool)
+}
+
+// again: one pass over seq given up after its first item, then seq itself
+func again[T any](seq iter.Seq2[T, error]) iter.Seq2[T, error] {
+	catch(func() {
+		for range seq {
+			break
+		}
+	})
+	return seq
 }
 
 var formatDefs = []formatDef{
 	{"fasta",
 		func(r io.Reader, v func(gItem) bool) (int, bool) { return run2(fasta.Reader(r), gFasta, v) },
-		func(p string, v func(gItem) bool) (int, bool) { return run2(fasta.File(p), gFasta, v) }},
+		func(p string, v func(gItem) bool) (int, bool) { return run2(fasta.File(p), gFasta, v) },
+		func(p string, v func(gItem) bool) (int, bool) { return run2(again(fasta.File(p)), gFasta, v) }},
 	{"fastq",
 		func(r io.Reader, v func(gItem) bool) (int, bool) { return run2(fastq.Reader(r), gFastq, v) },
-		func(p string, v func(gItem) bool) (int, bool) { return run2(fastq.File(p), gFastq, v) }},
+		func(p string, v func(gItem) bool) (int, bool) { return run2(fastq.File(p), gFastq, v) },
+		func(p string, v func(gItem) bool) (int, bool) { return run2(again(fastq.File(p)), gFastq, v) }},
 	{"sam",
 		func(r io.Reader, v func(gItem) bool) (int, bool) { return run2(sam.Reader(r), gSam, v) },
-		func(p string, v func(gItem) bool) (int, bool) { return run2(sam.File(p), gSam, v) }},
+		func(p string, v func(gItem) bool) (int, bool) { return run2(sam.File(p), gSam, v) },
+		func(p string, v func(gItem) bool) (int, bool) { return run2(again(sam.File(p)), gSam, v) }},
 	{"samh",
 		func(r io.Reader, v func(gItem) bool) (int, bool) { return run2(sam.ReaderHeader(r), gSamH, v) },
-		func(p string, v func(gItem) bool) (int, bool) { return run2(sam.FileHeader(p), gSamH, v) }},
+		func(p string, v func(gItem) bool) (int, bool) { return run2(sam.FileHeader(p), gSamH, v) },
+		func(p string, v func(gItem) bool) (int, bool) { return run2(again(sam.FileHeader(p)), gSamH, v) }},
 	{"bed",
 		func(r io.Reader, v func(gItem) bool) (int, bool) { return run2(bed.Reader(r), gBed, v) },
-		func(p string, v func(gItem) bool) (int, bool) { return run2(bed.File(p), gBed, v) }},
+		func(p string, v func(gItem) bool) (int, bool) { return run2(bed.File(p), gBed, v) },
+		func(p string, v func(gItem) bool) (int, bool) { return run2(again(bed.File(p)), gBed, v) }},
 	{"newick",
 		func(r io.Reader, v func(gItem) bool) (int, bool) { return run2(newick.Reader(r), gNewick, v) },
-		func(p string, v func(gItem) bool) (int, bool) { return run2(newick.File(p), gNewick, v) }},
+		func(p string, v func(gItem) bool) (int, bool) { return run2(newick.File(p), gNewick, v) },
+		func(p string, v func(gItem) bool) (int, bool) { return run2(again(newick.File(p)), gNewick, v) }},
 }
 
 func formatByName(n string) *formatDef {
@@ -274,11 +293,13 @@ func lineOfLength(fmtName string, salt int64, n int, exact bool) corpusInput {
 		(&fastq.Fastq{Name: []byte("after"), Sequence: fqBytes(r, 20), Quals: fqBytes(r, 20)}).Write(buf)
 	case "sam", "samh":
 		buf.WriteString("@HD\tVN:1.6\n")
+		buf.WriteString("@CO\t" + strings.Repeat("h", n/8) + "\n") // long lines of every kind: a header ...
 		samRecord(r).Write(buf)
 		samLong(r, n/2).Write(buf)
 		samRecord(r).Write(buf)
 	case "bed":
 		bedRecord(r, 4).Write(buf)
+		buf.WriteString("#" + strings.Repeat("c", n/8) + "\n") // ... a comment
 		b := bedRecord(r, 4)
 		b.Name = string(faRandBytes(r, n, "\r\n\t"))
 		b.Write(buf)
